@@ -480,9 +480,15 @@ impl Acc {
     }
 }
 
+static EDFS_EXTRA: std::sync::atomic::AtomicBool = std::sync::atomic::AtomicBool::new(false);
+
 pub fn run(tier: &str) -> Report {
     let mut rep = Report::new("C08", tier, "model_checking");
-    let thorough = rep.is_thorough();
+    // quick uses the hand-written families at their full (formerly thorough-only) size and the E-DFS generators at
+    // bounds (4, 3); thorough raises the E-DFS bounds to (5, 4) and prints 20 000 ASTs at every width 1..=200
+    let extra = rep.is_thorough();
+    let thorough = true;
+    EDFS_EXTRA.store(extra, std::sync::atomic::Ordering::Relaxed);
     let deadline = rep.deadline();
     rep.rule = "the printed text changes with the width, or contains a negative literal, non-decimal literal, escape, switch or nested unary".into();
     let mut acc = Acc { failure_counts: BTreeMap::new(), best: BTreeMap::new() };
@@ -535,7 +541,7 @@ pub fn run(tier: &str) -> Report {
     work.sort_by_key(|&i| (cases[i].text.len(), i));
     rep.states += work.len() as u64;
     let all_widths: Vec<usize> = (1..=200).collect();
-    let n_full = if thorough { 2000 } else { 0 };
+    let n_full = if extra { 20000 } else { 1000 };
 
     // stage 2: all widths
     let t2 = std::time::Instant::now();
@@ -592,7 +598,7 @@ pub fn run(tier: &str) -> Report {
     if capped { rep.cap_hit = Some("wall-clock deadline reached before every case was evaluated".into()); }
     rep.exhaustive = !capped;
     rep.bound_completed = format!("P: {} generated texts -> {} distinct ASTs x widths {}; D: see d_stats", cases.len(), work.len(),
-        if thorough { "1..=200 for the 2000 smallest, quick set for the rest" } else { "{1,2,10,20,40,79,80,99,100,200}" });
+        format!("1..=200 for the {} smallest, {{1,2,10,20,40,79,80,99,100,200}} for the rest", n_full));
     rep.assumptions = vec![
         "AST equality is decided by the harness's own canonical walk over truth's public AST types, not by truth's PartialEq: spans, NodeId/ResId/LoopId, language tags, DiffLabel.mask, offset comments and the decompiler's absolute-time comment are not compared (ids differ between two parses and are not part of the script).".into(),
         "Literal signs are normalised before comparison: unary minus applied to a literal folds (recursively, with wrapping negation for ints and a sign-bit flip for floats), because the grammar has no negative literal token; the int display format (hex/bin/bool) is a printing hint and is not compared.".into(),
@@ -1164,7 +1170,8 @@ fn gen_edfs(g: &mut Gen, thorough: bool) {
             _ => format!("{{ {} {} }}", if depth > 0 { stmt(ch, depth - 1) } else { String::new() }, if depth > 0 { stmt(ch, depth - 1) } else { String::new() }),
         }
     }
-    let (b_expr, b_stmt, cap) = if thorough { (4, 4, 3_000_000) } else { (3, 3, 300_000) };
+    let _ = thorough;
+    let (b_expr, b_stmt, cap) = if EDFS_EXTRA.load(std::sync::atomic::Ordering::Relaxed) { (5, 4, 6_000_000) } else { (4, 3, 1_000_000) };
     let (b_expr, b_stmt): (u32, u32) = (std::env::var("C08_BE").ok().and_then(|s| s.parse().ok()).unwrap_or(b_expr), std::env::var("C08_BS").ok().and_then(|s| s.parse().ok()).unwrap_or(b_stmt));
     let mut texts: Vec<(&'static str, String)> = vec![];
     let s1 = explore_dfs(b_expr, cap, &|ch| format!("I0 = {};\n    f({}, z);", expr(ch, 3, false), expr(ch, 2, false)), &mut |_, t| texts.push(("edfs:expr", t)));
